@@ -207,12 +207,12 @@ def _coords(seed, conf=0, tag=""):
                 q = CH_MOVE[_GEOM](q)
             out.append([q[0], q[1], q[2] + 4.0 * conf])
         return out
-    dz = 4.0 * conf + (8.0 if tag == "b" else 0.0)
+    dz = 4.0 * conf + TAG_DZ[tag]
     return [[x + p[0], y + p[1], z + p[2] + dz] for x, y, z in XYZ]
 
 
 def _charges(conf=0, tag=""):
-    off = (0.5 if tag == "b" else 0.0) + conf * 2.0
+    off = TAG_DZ[tag] / 16.0 + conf * 2.0
     return [q + off for q in (CH_QS if _chiral() else QS)]
 
 
@@ -273,7 +273,25 @@ def build_ensemble(seed, tag="", pop="full"):
     return e
 
 
+XSOURCES = ["Substructure[heavy]", "Substructure[unordered]", "Molecule[atoms-adopted]"]
+"""sources whose atoms do not (only) belong to them: a Substructure's atoms belong to its parent
+(atom.idx is the position in the PARENT), a Molecule some of whose atoms were later adopted by another
+container (Promolecule([..]) takes atoms over by default) has atoms whose parent / idx point elsewhere"""
+
+
+def build_xsource(name, seed, tag, pop):
+    m = build_base("Molecule", seed, tag, pop)
+    if name == "Substructure[heavy]":
+        return Env(m.heavy, owner=m)
+    if name == "Substructure[unordered]":
+        return Env(m.substructure([3, 0, 1]), owner=m)
+    later = Promolecule([m.atoms[1], m.atoms[0]])  # adopts the two atoms: their parent / idx now refer to `later`
+    return Env(m, keep=[later])
+
+
 def build_source(name, seed, tag="", pop="full"):
+    if name in XSOURCES:
+        return build_xsource(name, seed, tag, pop)
     if name in BASE:
         return Env(build_base(name, seed, tag, pop))
     e = build_ensemble(seed, tag, pop)
@@ -305,6 +323,30 @@ def enc(v, depth=0):
     if isinstance(v, np.ndarray):
         return ("nd", v.shape, str(v.dtype.kind), enc(v.tolist(), depth + 1))
     return ("obj", type(v).__name__, repr(v))
+
+
+_OWN = {"atoms": {}, "bonds": {}}  # identities of the atoms / bonds of the object being snapshot (set by snap)
+
+
+def _relation(v):
+    if id(v) in _OWN["atoms"]:
+        return ("rel", ("own-atom", _OWN["atoms"][id(v)]))
+    if id(v) in _OWN["bonds"]:
+        return ("rel", ("own-bond", _OWN["bonds"][id(v)]))
+    return ("rel", "detached")
+
+
+def strip_rel(x):
+    """the same snapshot without the information WHICH atom a reference inside an attrib points at"""
+    if isinstance(x, tuple):
+        if len(x) == 2 and x[0] == "rel":
+            return ("rel", None)
+        return tuple(strip_rel(y) for y in x)
+    if isinstance(x, list):
+        return [strip_rel(y) for y in x]
+    if isinstance(x, dict):
+        return {k: strip_rel(v) for k, v in x.items()}
+    return x
 
 
 def _tn(t):
@@ -343,9 +385,9 @@ def enc_t(v, depth=0):
     if isinstance(v, np.ndarray):
         return ("nd", tn, v.shape, v.dtype.str, enc_t(v.tolist(), depth + 1))
     if isinstance(v, Atom):
-        return ("Atom", tn, tuple((f, enc(getattr(v, f))) for f in ATOM_FIELDS), enc_t(v.attrib, depth + 1))
+        return ("Atom", tn, tuple((f, enc(getattr(v, f))) for f in ATOM_FIELDS), enc_t(v.attrib, depth + 1), _relation(v))
     if isinstance(v, Bond):
-        return ("Bond", tn, tuple((f, enc(getattr(v, f))) for f in BOND_FIELDS))
+        return ("Bond", tn, tuple((f, enc(getattr(v, f))) for f in BOND_FIELDS), _relation(v))
     return ("obj", tn, repr(v))
 
 
@@ -386,6 +428,14 @@ def snap(obj, owner=None):
     """everything the public accessors of `obj` return, as a nested comparable structure"""
     owners = (obj,) if owner is None else (obj, owner)
     s = {}
+    try:
+        _OWN["atoms"] = {id(a): i for i, a in enumerate(obj.atoms)}
+    except Exception:
+        _OWN["atoms"] = {}
+    try:
+        _OWN["bonds"] = {id(b): j for j, b in enumerate(obj.bonds)} if isinstance(obj, Connectivity) else {}
+    except Exception:
+        _OWN["bonds"] = {}
     s["name"] = _get(lambda: enc(obj.name))
     s["charge"] = _get(lambda: enc(obj.charge))
     s["mult"] = _get(lambda: enc(obj.mult))
@@ -536,12 +586,21 @@ def diff(a, b, path=()):
 def prune(paths):
     """an index is only defined relative to the parent: where the parent relation itself differs,
     the index difference is the same finding"""
-    par = {q[:-1] for q in paths if q and q[-1] == "parent"}
-    return [q for q in paths if not (q and q[-1] == "idx" and q[:-1] in par)]
+    core = lambda q: q[:-1] if q and isinstance(q[-1], str) and q[-1].startswith("[") else q
+    par = {core(q)[:-1] for q in paths if core(q) and core(q)[-1] == "parent"}
+    return [q for q in paths if not (core(q) and core(q)[-1] == "idx" and core(q)[:-1] in par)]
 
 
 def norm_path(p):
     """class-level name of a snapshot path: indices -> *, nothing below an attrib dictionary"""
+    out = ""
+    mark = ""
+    if p and isinstance(p[-1], str) and p[-1].startswith("[") and p[-1].endswith("]"):
+        mark, p = p[-1], p[:-1]
+    return _norm_path(p) + mark
+
+
+def _norm_path(p):
     out = ""
     for x in p:
         if isinstance(x, int):
@@ -587,7 +646,12 @@ def unary_applicable(rname, obj):
     return True
 
 
-BINARY = ["concatenate", "or", "join", "ensemble-from-list"]
+# the same OBJECT several times among the sources of one call: pattern over the distinct objects a, b
+REPEAT = {"concatenate[a,a]": "aa", "concatenate[a,a,a]": "aaa", "concatenate[a,b,a]": "aba", "or[a,a]": "aa"}
+BINARY = ["concatenate", "or", "join", "ensemble-from-list", "concatenate3", "concatenate4"] + list(REPEAT)  # product routes
+NSRC = {"concatenate3": 3, "concatenate4": 4}
+TAGS = ["", "b", "c", "d"]
+TAG_DZ = {"": 0.0, "b": 8.0, "c": 16.0, "d": 24.0}
 AP = (2, 3)  # attachment atoms for join: atom 2 of a, atom 3 of b
 
 
@@ -605,7 +669,22 @@ def binary_apply(rname, a, b):
     raise HarnessError(rname)
 
 
+def nary_shrink(obj, tag):
+    """sources of different sizes for the n-ary routes: the third has 3 atoms / 2 bonds, the fourth
+    2 atoms / 1 bond (built with the library's own del_atom, which is C05's subject)"""
+    if tag in ("c", "d") and obj.n_atoms > 3:
+        obj.del_atom(3)
+    if tag == "d" and obj.n_atoms > 2:
+        obj.del_atom(2)
+
+
 def binary_applicable(rname, srcname):
+    if rname in NSRC or rname in REPEAT:
+        return srcname in ("Structure", "Molecule")
+    return _binary_applicable(rname, srcname)
+
+
+def _binary_applicable(rname, srcname):
     if rname == "ensemble-from-list":
         return srcname == "Molecule"
     return srcname in ("Structure", "Molecule", "Conformer")
@@ -618,12 +697,52 @@ def fidelity_unary(s_src, s_cp):
     """every field both classes have"""
     out = []
     for k in sorted(set(s_src) & set(s_cp)):
+        if isinstance(s_src[k], str) and s_src[k].startswith("raises:"):
+            continue  # the source itself cannot answer (a Substructure has no name / charge / mult)
         out += diff(s_src[k], s_cp[k], (k,))
     return out
 
 
 def _atom_core(d):
     return {k: v for k, v in d.items() if k != "idx"}
+
+
+def fidelity_concat(snaps, sp):
+    """concatenate(s1, .., sn): the product lists the atoms of s1, then s2, ...; every product bond
+    joins the copies of the atoms its source bond joins (ORDERED end points by position, offset by
+    the sizes of ALL earlier sources); rows and charges are stacked in the same order"""
+    out = []
+    src_atoms = [d for sn in snaps for d in sn["atoms"]]
+    if sp["n_atoms"] != len(src_atoms):
+        return [("atoms", "len")]
+    for i, d in enumerate(src_atoms):
+        out += diff(_atom_core(d), _atom_core(sp["atoms"][i]), ("atoms", i))
+        if sp["atoms"][i]["parent"] == "self" and sp["atoms"][i]["idx"] != i:
+            out.append(("atoms", i, "idx"))
+    exp = []
+    off = 0
+    for sn in snaps:
+        for d in sn["bonds"]:
+            e = dict(d)
+            e["a1"], e["a2"] = d["a1"] + off, d["a2"] + off
+            exp.append(e)
+        off += sn["n_atoms"]
+    if len(sp["bonds"]) != len(exp):
+        out.append(("bonds", "len"))
+    else:
+        for i, (x, y) in enumerate(zip(exp, sp["bonds"])):
+            out += diff(x, y, ("bonds", i))
+    if "coords" in sp:
+        rows = ()
+        for sn in snaps:
+            rows += sn["coords"][3][1]
+        out += diff(("nd", (len(src_atoms), 3), "f", ("seq", rows)), sp["coords"], ("coords",))
+    if "atomic_charges" in sp and all("atomic_charges" in sn for sn in snaps):
+        qs = ()
+        for sn in snaps:
+            qs += sn["atomic_charges"][3][1]
+        out += diff(("nd", (len(src_atoms),), "f", ("seq", qs)), sp["atomic_charges"], ("atomic_charges",))
+    return out
 
 
 def fidelity_product(rname, sa, sb, sp):
@@ -878,12 +997,25 @@ def make_copy(ctx, cell):
     ur = unary_routes()
     nops = 1
     if route[0] in BINARY:
-        env_b = build_source(src, seed, "b", pop)
-        keep.append(env_b)
-        sources.append(Side("source_b", env_b.obj, env_b.owner))
-        kind = "concatenate" if route[0] == "or" else route[0]  # a | b is the operator spelling of concatenate
+        for tag in TAGS[1 : NSRC.get(route[0], 2)]:
+            env_x = build_source(src, seed, tag, pop)
+            nary_shrink(env_x.obj, tag)
+            keep.append(env_x)
+            sources.append(Side("source_" + tag, env_x.obj, env_x.owner))
+        kind = "concatenate" if route[0] in ("or", "concatenate3", "concatenate4") or route[0] in REPEAT else route[0]  # a | b is the operator spelling of concatenate
         try:
-            p = binary_apply(route[0], env_a.obj, env_b.obj)
+            if route[0] in REPEAT:
+                args = [sources[0].obj if ch == "a" else sources[1].obj for ch in REPEAT[route[0]]]
+                if route[0].startswith("or"):
+                    p = args[0] | args[1]
+                else:
+                    cls = Molecule if isinstance(env_a.obj, Molecule) else Structure
+                    p = cls.concatenate(*args)
+            elif route[0] in NSRC:
+                cls = Molecule if isinstance(env_a.obj, Molecule) else Structure
+                p = cls.concatenate(*[sd.obj for sd in sources])
+            else:
+                p = binary_apply(route[0], env_a.obj, sources[1].obj)
         except Exception as e:
             return sources, [], kind, e, keep, nops
         return sources, [Side("copy", p)], kind, None, keep, nops
@@ -975,7 +1107,140 @@ def fragment_geometry(rname, a, b, p):
     return out
 
 
+# -------------------------------------------------------------------------------------------------
+# composite sources: ONE pickle / deepcopy call that covers an object TOGETHER WITH references into it
+# -------------------------------------------------------------------------------------------------
+COMPOSITES = ["tuple(obj,atom,bond,coords)", "tuple(atom,bond,coords,obj)", "dict(sites,bond,mol)", "list(obj,obj)", "tuple(view,owner)", "tuple(a,b)"]
+
+
+def make_composite(kind, src, seed):
+    env = build_source(src, seed, "", "full")
+    o = env.obj
+    has_b = isinstance(o, Connectivity) and o.n_bonds > 1
+    arr = o.coords if isinstance(o, (CartesianGeometry, ConformerEnsemble)) and not isinstance(o, Conformer) else None
+    if kind == "tuple(obj,atom,bond,coords)":
+        return (o, o.atoms[1], o.bonds[0] if has_b else None, arr), env
+    if kind == "tuple(atom,bond,coords,obj)":
+        return (o.atoms[1], o.bonds[0] if has_b else None, arr, o), env
+    if kind == "dict(sites,bond,mol)":
+        return {"sites": [o.atoms[2], o.atoms[0]], "bond": o.bonds[1] if has_b else None, "mol": o}, env
+    if kind == "list(obj,obj)":
+        return [o, o], env
+    if kind == "tuple(view,owner)":
+        if src == "Conformer":
+            return (o, env.owner, env.owner[0]), env
+        if src == "ConformerEnsemble":
+            return (o[1], o, o[1]), env
+        return None, env
+    if kind == "tuple(a,b)":
+        env_b = build_source(src, seed, "b", "full")
+        env.keep.append(env_b)
+        return (o, env_b.obj), env
+    raise HarnessError(kind)
+
+
+def _leaves(c):
+    if isinstance(c, dict):
+        out = []
+        for k in sorted(c):
+            out += _leaves(c[k])
+        return out
+    if isinstance(c, (list, tuple)):
+        out = []
+        for x in c:
+            out += _leaves(x)
+        return out
+    return [c]
+
+
+def describe(comp):
+    """the reference STRUCTURE of a composite: which leaf is which object, whose atom i / bond j / array,
+    which conformer of which ensemble - by identity, relative to the objects of this very composite"""
+    leaves = _leaves(comp)
+    objs = []
+    for x in leaves:
+        if isinstance(x, Promolecule) and not any(x is y for y in objs):
+            objs.append(x)
+    # an ensemble that is only reachable through a conformer still counts as "its" ensemble
+    out = []
+    for x in leaves:
+        if x is None:
+            out.append(None)
+        elif isinstance(x, Promolecule):
+            k = next(i for i, y in enumerate(objs) if y is x)
+            d = ("obj", type(x).__name__, k)
+            if isinstance(x, Conformer):
+                ens = [i for i, y in enumerate(objs) if isinstance(y, ConformerEnsemble) and x.atoms is y.atoms]
+                same = [i for i in ens if x.n_atoms and np.shares_memory(x.coords, objs[i].coords)]
+                d += (("conformer-of", tuple(same)),)
+            out.append(d)
+        elif isinstance(x, Atom):
+            hit = [(k, i) for k, y in enumerate(objs) for i, a in enumerate(y.atoms) if a is x]
+            out.append(("atom", tuple(hit)))
+        elif isinstance(x, Bond):
+            hit = [(k, j) for k, y in enumerate(objs) if isinstance(y, Connectivity) for j, b in enumerate(y.bonds) if b is x]
+            out.append(("bond", tuple(hit)))
+        elif isinstance(x, np.ndarray):
+            hit = [k for k, y in enumerate(objs) if isinstance(y, (CartesianGeometry, ConformerEnsemble)) and y.coords is x]
+            out.append(("array", tuple(hit)))
+        else:
+            out.append(("other", type(x).__name__))
+    return out
+
+
+def run_composite(ctx, cell):
+    seed = ctx.seed
+    src, kind, route = cell["src"], cell["comp"], cell["route"][0]
+    comp, env = make_composite(kind, src, seed)
+    case = dict(cell)
+    case["seed"] = seed
+    ctx.count(evaluations=1, traces=1, transitions=1)
+    if comp is None:
+        return
+    fn = unary_routes()[route][1]
+    try:
+        cp = fn(comp)
+    except Exception as e:
+        ctx.violation(sig(route, f"raises[composite:{src}]"), f"{route} of {kind} around a {src} raised {type(e).__name__}: {e}", case)
+        return
+    ds, dc = describe(comp), describe(cp)
+    key = (src, kind, route)
+    ctx.nontrivial(key)
+    ctx.outcome(digest((key, dc)))
+    if type(cp) is not type(comp) or len(ds) != len(dc):
+        ctx.violation(sig(route, "composite:shape-changed"), f"{route} of {kind} around a {src}: the container came back as {type(cp).__name__} with {len(dc)} leaves", case)
+        return
+    for i, (a, b) in enumerate(zip(ds, dc)):
+        if a != b:
+            what = a[0] if isinstance(a, tuple) else "none"
+            if what == "obj" and isinstance(b, tuple) and b[0] == "obj" and a[:3] != b[:3]:
+                what = "same-object-twice" if kind == "list(obj,obj)" else "obj"
+            elif what == "obj":
+                what = "conformer-of-its-ensemble"
+            ctx.violation(
+                sig(route, f"composite:reference-structure-lost:{what}"),
+                f"{route} of {kind} around a {src}: leaf {i} was {a} relative to the objects of the composite, in the copy it is {b} "
+                "(a copied reference must be the copy's own atom / bond / array; the same object twice stays one object)",
+                case,
+            )
+            return
+    # every object of the copy is a faithful, independent copy of its original
+    so = [x for x in _leaves(comp) if isinstance(x, Promolecule)]
+    co = [x for x in _leaves(cp) if isinstance(x, Promolecule)]
+    for x, y in zip(so, co):
+        ox = getattr(x, "_parent", None) if isinstance(x, Conformer) else None
+        oy = getattr(y, "_parent", None) if isinstance(y, Conformer) else None
+        fd = prune(fidelity_unary(snap(x, ox), snap(y, oy)))
+        for pth in sorted(set(norm_path(q) for q in fd)):
+            ctx.violation(sig(route, f"copy-differs:{pth}"), f"{route} of {kind} around a {src}: field {pth} of a copied object differs from its original", case)
+        for pc, ps, empty in aliases(reach(x, ox), reach(y, oy)):
+            ctx.violation(sig(route, f"shared-state:{norm_path(pc)}"), f"{route} of {kind} around a {src}: copy.{pc} is the original's {ps}", case)
+            break
+
+
 def _run_cell(ctx, cell):
+    if cell.get("comp"):
+        return run_composite(ctx, cell)
     seed = ctx.seed
     src, route, muts, direction = cell["src"], cell["route"], cell["muts"], cell["dir"]
     sources, copies, kind, err, keep, nops = make_copy(ctx, cell)
@@ -995,29 +1260,46 @@ def _run_cell(ctx, cell):
     ur = unary_routes()
     last_kind = kind if route[0] in BINARY else ur[route[-1]][0]
     checks = []  # (kind label, reference label, paths)
-    if route[0] in BINARY:
-        fp = fidelity_product(route[0], s_before["source"], s_before["source_b"], s_before["copy"])
+    # WHICH atom a reference inside an attrib points at is demanded on the generic routes only: pickle and
+    # deepcopy re-point it at the copy's own atom; the constructors / products make a detached deep copy
+    generic = lambda k: all(x in ("pickle", "deepcopy") for x in k.split("+"))
+    cmpv = lambda label, k: s_before[label] if generic(k) else strip_rel(s_before[label])
+    if route[0] in REPEAT:
+        # judged like distinct sources: the k-th occurrence of a source is a fragment of its own
+        snaps = [strip_rel(s_before["source" if ch == "a" else "source_b"]) for ch in REPEAT[route[0]]]
+        fc = [q + ("[same-object-repeated]",) for q in fidelity_concat(snaps, strip_rel(s_before["copy"]))]
+        checks.append((kind, "source", fc))
+    elif route[0] in NSRC:
+        checks.append((kind, "source", fidelity_concat([strip_rel(s_before[sd.label]) for sd in sources], strip_rel(s_before["copy"]))))
+    elif route[0] in BINARY:
+        fp = fidelity_product(route[0], strip_rel(s_before["source"]), strip_rel(s_before["source_b"]), strip_rel(s_before["copy"]))
         if route[0] != "ensemble-from-list":
             fp = fp + fragment_geometry(route[0], sources[0].obj, sources[1].obj, result.obj)
         checks.append((kind, "source", fp))
     elif len(route) == 1:
-        checks.append((kind, "source", fidelity_unary(s_before["source"], s_before["copy"])))
+        fu = fidelity_unary(cmpv("source", kind), cmpv("copy", kind))
+        if src in XSOURCES:
+            # the parent / idx an atom of such a source reports refer to ANOTHER container by construction
+            fu = [q for q in fu if not (q[0] == "atoms" and q[-1] in ("parent", "idx"))]
+        checks.append((kind, "source", fu))
     else:
         # a copy of a copy: against the object it was made from (that is the last route, applied to a
         # source that happens to be a copy), and against the original on the fields every class
         # along the chain has
         mid = f"intermediate{len(route) - 2}"
-        checks.append((last_kind, mid, fidelity_unary(s_before[mid], s_before["copy"])))
+        checks.append((last_kind, mid, fidelity_unary(cmpv(mid, last_kind), cmpv("copy", last_kind))))
         common = set(s_before["source"]) & set(s_before["copy"])
         for j in range(len(route) - 1):
             common &= set(s_before[f"intermediate{j}"])
-        checks.append((kind, "source", [q for q in fidelity_unary(s_before["source"], s_before["copy"]) if q[0] in common]))
+        checks.append((kind, "source", [q for q in fidelity_unary(cmpv("source", kind), cmpv("copy", kind)) if q[0] in common]))
     bad = False
     for klabel, ref, fd in checks:
         fd = prune(fd)
         for p in sorted(set(norm_path(p) for p in fd)):
             bad = True
             first = next(q for q in fd if norm_path(q) == p)
+            if first and isinstance(first[-1], str) and first[-1].startswith("["):
+                first = first[:-1]
             ctx.violation(
                 sig(klabel, f"copy-differs:{p}"),
                 f"{'/'.join(route)} of a {src}" + (f" [{cell['geom']}]" if cell.get("geom") else "") + f": field {p} of the result differs from the {ref} "
@@ -1085,7 +1367,7 @@ def _run_cell(ctx, cell):
         else:
             watch = [(k, kind) for k in result.labels()]
             if route[0] in BINARY:
-                watch += [(k, kind) for k in sources[1].labels()]
+                watch += [(k, kind) for sd in sources[1:] for k in sd.labels()]
         step_bad = False
         for k, klabel in watch:
             if k in touched:
@@ -1327,6 +1609,15 @@ def cells(ctx):
                 for m1, m2 in CROSS:
                     for d1, d2 in (("copy", "source"), ("source", "copy")):
                         out.append({"src": s, "pop": pop, "route": list(r), "muts": [m1, m2], "dir": d1, "dirs": [d1, d2]})
+    for s in SOURCES:
+        for kind in COMPOSITES:
+            for r in ("pickle", "deepcopy"):
+                out.append({"src": s, "pop": "full", "comp": kind, "route": [r], "muts": [], "dir": "copy"})
+    for s in XSOURCES:
+        for d in BASE:
+            for m in muts:
+                for dr in ("copy", "source"):
+                    out.append({"src": s, "pop": "full", "route": [f"ctor:{d}"], "muts": [m], "dir": dr})
     return out, routes_for, muts
 
 
@@ -1367,6 +1658,22 @@ def cells2(ctx, routes_for, muts, dirty):
                                 continue  # same-side pairs differ from the single cells only through the first edit's effect
                             out.append({"src": s, "pop": pop, "route": list(r), "muts": [m1, m2], "dir": d1, "dirs": [d1, d2]})
     return out
+
+
+def _observe_repeats(ctx):
+    """join(a, a, ap1, ap2): the same fragment OBJECT as both arguments.  Measured, not judged: on the
+    tree this was written against it raises (both attachment atoms are dropped from both copies while the
+    coordinates are computed for one dropped atom each), i.e. it is not a supported call."""
+    obs = {}
+    for cname in ("Structure", "Molecule"):
+        a = build_base(cname, ctx.seed, "")
+        try:
+            p = type(a).join(a, a, *AP)
+            obs[f"{cname}.join(a, a)"] = f"{p.n_atoms} atoms, {p.n_bonds} bonds"
+        except Exception as e:
+            obs[f"{cname}.join(a, a)"] = f"raised {type(e).__name__}: {e}"
+        ctx.count(transitions=1)
+    ctx.note("observation_join_with_the_same_object_twice(not judged)", obs)
 
 
 def _self_check(ctx):
@@ -1410,6 +1717,21 @@ def run(ctx):
         "orientation; every fragment of the product must be a proper rigid image of its source: intra-fragment distances equal "
         "(1e-9 relative) and signed volumes of atom quadruples equal in sign and size - where the fragments are placed relative "
         "to each other stays C12's subject",
+        "composite sources: one pickle / deepcopy call over a tuple / dict / list that holds an object together with references to "
+        "its atoms, a bond, its coords array, a Conformer with its ensemble, the same object twice, two unrelated objects; the copy "
+        "must preserve the reference structure (a copied reference IS the copy's own atom i / bond j / coords array, the same object "
+        "twice stays one object, a conformer stays a view of the copied ensemble) - what the generic __reduce_ex__ route of HEAD "
+        "guarantees; likewise a reference to an own atom / bond inside an attrib must point at the copy's own atom / bond after pickle "
+        "and deepcopy",
+        "copy constructors also run on sources whose atoms belong (also) to another container: Substructure (heavy atoms; an "
+        "unordered atom list) and a Molecule two of whose atoms were later adopted by Promolecule([...]); for these the parent / idx "
+        "an atom reports refer to the other container by construction and are not compared, fields the source cannot answer (a "
+        "Substructure has no name / charge / mult) are skipped; bonds must join the copies of the same atoms BY POSITION, ordered",
+        "concatenate with 3 and 4 sources of different sizes (Structure, Molecule): every product bond joins the copies of the "
+        "atoms its source bond joins (ordered end points offset by the sizes of all earlier sources), rows and charges stacked in "
+        "order.  The same OBJECT several times among the sources of one call (a, a / a, a, a / a, b, a; concatenate and |) is judged "
+        "like distinct sources: the k-th occurrence is a fragment of its own.  join(a, a) raises on HEAD (not a supported call): "
+        "measured and written to the notes, not judged",
         "a | b of two Molecules returns a Structure, which has no partial charges: not compared for that route",
         "coordinates, partial charges and weights are compared bit for bit (NaN == NaN) on every route: none of them goes through "
         "a text or library format; the source values are not representable in float32 (1e-7 ... 1e3)",
@@ -1432,12 +1754,14 @@ def run(ctx):
         "the cell in the matrix: whatever it did, the other side must be unchanged",
     ]
     _self_check(ctx)
+    _observe_repeats(ctx)
     allc, routes_for, muts = cells(ctx)
     ctx.bound["cells_single"] = len(allc)
-    ctx.bound["sources"] = SOURCES
+    ctx.bound["sources"] = SOURCES + XSOURCES
     ctx.bound["routes"] = {s: ["/".join(r) for r in rs] for s, rs in routes_for.items()}
     ctx.bound["mutations"] = MUT_NAMES
     ctx.bound["populations_at_copy_time"] = POPS
+    ctx.bound["composite_sources_for_pickle_and_deepcopy"] = COMPOSITES
     ctx.bound["product_route_geometries"] = ["std"] + GEOMS
     ctx.bound["cross_histories"] = [list(c) for c in CROSS]
     nparts = 32 if ctx.thorough else 16
@@ -1471,4 +1795,6 @@ def replay(ctx, case):
         cell["dirs"] = list(case["dirs"])
     if case.get("geom"):
         cell["geom"] = case["geom"]
+    if case.get("comp"):
+        cell["comp"] = case["comp"]
     run_cell(ctx, cell)
